@@ -190,6 +190,60 @@ def enumerate_mutants(rel: str, src: str):
     return out
 
 
+def enumerate_varswaps(rel: str, src: str):
+    """Replace one variable read by another variable of the same (known) type that is in scope."""
+    from twzsa.ctx import Ctx
+    from twzsa.loader import iter_own_nodes
+
+    ctx = _CTX.get("ctx") or _CTX.setdefault("ctx", Ctx(REPO))
+    out = []
+    mod = next((m for m in ctx.P.modules.values() if m.rel == rel), None)
+    if mod is None:
+        return out
+    tree = ast.parse(src)
+    # map (lineno, col) -> node of the fresh tree
+    pos = {}
+    for n in ast.walk(tree):
+        if isinstance(n, ast.Name) and isinstance(n.ctx, ast.Load):
+            pos[(n.lineno, n.col_offset, n.id)] = n
+    for f in ctx.P.funcs.values():
+        if f.module is not mod or f.name in SKIP_FUNCS:
+            continue
+        env = ctx.T.env(f)
+        typed = {k: v for k, v in env.items() if v[0] not in ("any", "none", "ext", "extinst", "bool", "lambda", "type?", "func", "module", "type")}
+        for n in iter_own_nodes(f.node):
+            if isinstance(n, ast.Name) and isinstance(n.ctx, ast.Load) and n.id in typed:
+                alts = sorted(k for k, v in typed.items() if k != n.id and v == typed[n.id] and k not in ("self", "cls"))
+                if not alts or n.id in ("self", "cls"):
+                    continue
+                tn = pos.get((n.lineno, n.col_offset, n.id))
+                if tn is None:
+                    continue
+                saved = tn.id
+                tn.id = alts[0]
+                try:
+                    text = ast.unparse(tree) + "\n"
+                    ast.parse(text)
+                    out.append({"file": rel, "func": f.short, "kind": "var-swap", "line": n.lineno, "what": f"{saved} -> {alts[0]} in: " +
+                                ast.unparse(_stmt_of(tree, tn))[:90], "source": text})
+                except Exception:
+                    pass
+                tn.id = saved
+    return out
+
+
+_CTX = {}
+
+
+def _stmt_of(tree, node):
+    best = None
+    for s in ast.walk(tree):
+        if isinstance(s, ast.stmt) and any(x is node for x in ast.walk(s)):
+            if best is None or (getattr(s, "end_lineno", 0) - s.lineno) <= (getattr(best, "end_lineno", 0) - best.lineno):
+                best = s
+    return best or node
+
+
 def analyse(m):
     from twzsa import engine
 
@@ -244,6 +298,7 @@ def main():
     ap.add_argument("--limit", type=int, default=0)
     ap.add_argument("--out", default="/tmp/mutation_survey.json")
     ap.add_argument("--no-suite", action="store_true")
+    ap.add_argument("--varswap", action="store_true", help="variable-swap operator only (a variable replaced by another of the same type)")
     ap.add_argument("--extra", action="store_true", help="second-generation operators only (constants, copies, attribute swaps, dropped arguments, dropped return values)")
     a = ap.parse_args()
     global EXTRA
@@ -255,7 +310,10 @@ def main():
                 rel = os.path.relpath(os.path.join(dp, f), REPO)
                 if a.only and a.only not in rel:
                     continue
-                muts += enumerate_mutants(rel, open(os.path.join(REPO, rel)).read())
+                if a.varswap:
+                    muts += enumerate_varswaps(rel, open(os.path.join(REPO, rel)).read())
+                else:
+                    muts += enumerate_mutants(rel, open(os.path.join(REPO, rel)).read())
     if a.extra:
         muts = [m for m in muts if m["kind"] in ("bool-flip", "int+1", "copy-drop", "attr-swap", "kwarg-drop", "arg2-drop", "return-none")]
     if a.limit:
